@@ -26,6 +26,7 @@ func init() {
 		c15Sticky(c)
 		c15MidFrameEOF(c)
 		c15Stale(c)
+		c15NoDeclaredSizeAllocation(c)
 	})
 }
 
@@ -770,4 +771,63 @@ func wtPeekValidity(c *core.Ctx, R string) {
 		})
 	}
 	c.Need(R, "uses of peeked header bytes", n, 4)
+}
+
+// c15NoDeclaredSizeAllocation — C15.1b: the peer declares a frame length of up
+// to 2^63-1; nothing may be allocated from that declaration.
+func c15NoDeclaredSizeAllocation(c *core.Ctx) {
+	const R = "C15.1b"
+	c.Rule(R, "no allocation sized by a declared length: in package webtransport no make(…) has a length or capacity that mentions Conn.readRemaining / Conn.readLength (directly or through a local defined from them) — makeslice panics ('len out of range') for the lengths a 64-bit header can declare, before a single payload byte was supplied; messages are accumulated by io.ReadAll / ReadFrom, whose growth follows the bytes actually received")
+	n := 0
+	for _, u := range c.P.Units {
+		if u.Pkg == nil || u.Pkg.Types == nil || u.Pkg.Types.Name() != "webtransport" {
+			continue
+		}
+		info := u.Info()
+		for _, cl := range u.Calls() {
+			if cl.Callee != nil || cl.Name != "make" {
+				continue
+			}
+			if id, ok := ast.Unparen(cl.Expr.Fun).(*ast.Ident); !ok || info.Uses[id] == nil {
+				continue
+			} else if _, isB := info.Uses[id].(*types.Builtin); !isB {
+				continue
+			}
+			n++
+			bad := ""
+			for _, a := range cl.Expr.Args[1:] {
+				var visit func(e ast.Expr, depth int)
+				visit = func(e ast.Expr, depth int) {
+					ast.Inspect(e, func(x ast.Node) bool {
+						switch s := x.(type) {
+						case *ast.SelectorExpr:
+							if f := fieldOf(info, s); f == "Conn.readRemaining" || f == "Conn.readLength" {
+								bad = f
+							}
+						case *ast.Ident:
+							if depth < 4 {
+								if v, ok := info.Uses[s].(*types.Var); ok && !v.IsField() {
+									if d, ok := u.SingleDef(s); ok && d != ast.Expr(s) {
+										if _, isT := d.(*core.TupleElem); !isT {
+											if _, isR := d.(*core.RangeElem); !isR {
+												if _, isZ := d.(*core.ZeroValue); !isZ {
+													if _, isA := d.(*core.AddrTaken); !isA {
+														visit(d, depth+1)
+													}
+												}
+											}
+										}
+									}
+								}
+							}
+						}
+						return true
+					})
+				}
+				visit(a, 0)
+			}
+			c.Check(R, keyf("%s/make(%s)", u.Key, core.ExprString(cl.Expr.Args[len(cl.Expr.Args)-1])), cl.Pos(), bad == "", keyf("allocation size depends on %s, a length the peer merely declared", bad))
+		}
+	}
+	c.Need(R, "make sites in package webtransport", n, 4)
 }
